@@ -95,7 +95,19 @@ def run(ctx):
         for c, which, argn in ((wl[0], "node", 2), (wl[1], "lane", 3)):
             lit = describe_operand(wh, c.args[0])
             flag = describe_operand(wh, c.args[1])
-            r.check(lit.startswith("as_ref(escape_if_needed(%s" % which) or ("escape_if_needed(%s)" % which) in lit, "write_header/%s/escaped" % which, c.loc(), "%s is written as escape_if_needed(%s)" % (which, which), "%s literal is %s" % (which, lit))
+            direct = lit.startswith("as_ref(escape_if_needed(%s" % which) or ("escape_if_needed(%s)" % which) in lit
+            via = None
+            if not direct:
+                # a local helper `h(text, is_identifier(text))` that escapes unless the flag says the text is an identifier
+                import re as _re
+                m_ = _re.search(r"([a-z_0-9]+)\((\w+), is_identifier\((\w+)\)\)", lit)
+                if m_:
+                    hb = [b for b in rm.all_bodies() if b.defpath.endswith("envelopes::" + m_.group(1))]
+                    esc = hb and [x for x in hb[0].calls if x.name in ("escape_if_needed", "escape_text")]
+                    esc_ok = bool(esc) and all(any(l == "false" for d, l, _ in dom_guards(hb[0], x.block)) or not dom_guards(hb[0], x.block) for x in esc)
+                    via = (m_.group(2) == which and m_.group(3) == which and esc_ok, m_.group(1), m_.group(2), m_.group(3))
+            r.check(direct or (via is not None and via[0]), "write_header/%s/escaped" % which, c.loc(), "%s is written escaped (%s)" % (which, "escape_if_needed" if direct else via[1] + " with its own identifier flag"),
+                    ("%s is escaped by %s(%s, ..) only when is_identifier(%s) is false - the flag belongs to a different string: when %s is an identifier, quotes and backslashes in %s are written raw and the envelope no longer parses (or names another lane)" % (which, via[1], via[2], via[3], via[3], which)) if via is not None else "%s literal is %s" % (which, lit))
             r.check(flag == "is_identifier(%s)" % which, "write_header/%s/quote-flag" % which, c.loc(), "quoting of %s is decided by is_identifier(%s)" % (which, which), "quoting of %s is decided by %s" % (which, flag))
         wlit = ctx.saw(rm.fn(suffix="envelopes::write_lit"))
         q = [c for c in wlit.calls if c.name == "put_u8" and describe_operand(wlit, c.args[1]) in ("34", "'\"'")]
